@@ -85,6 +85,7 @@ int open_unmapped_fds() {
 }
 int live_mappings() { return (int)g_maps.size(); }
 int double_munmaps() { return g_double_munmaps; }
+std::vector<uintptr_t> live_mapping_addrs() { std::vector<uintptr_t> v; for (auto &kv : g_maps) v.push_back(kv.first); return v; }
 std::string open_fd_desc() {
   std::string s;
   for (auto &kv : g_fds) s += strf("%s%s", s.empty() ? "" : ",", kv.second.dir.c_str());
